@@ -75,7 +75,7 @@ def run(chk):
         chk.extra["edit_distribution"] = dist
         verdict, real = ([], [])
         if ok:
-            pkg = json.load(open(os.path.join(V.GEN, "pkg.json")))
+            pkg = CS.load_pkg(mmv)
             keep = [i for i, c in enumerate(cases) if c["target"] in pkg["classes"]]
             cases = [cases[i] for i in keep]
             meta = [meta[i] for i in keep]
